@@ -2,7 +2,7 @@
 Require Import ZArith List Bool.
 Require Import AV.BigInt.Model AV.BigInt.Facts AV.BigInt.FactsCmp AV.BigInt.FactsAdd AV.BigInt.FactsMul
                AV.BigInt.FactsBits AV.BigInt.FactsDivS AV.BigInt.FactsStr AV.BigInt.FactsScan
-               AV.BigInt.FactsShift AV.BigInt.FactsPow AV.BigInt.FactsConv AV.BigInt.FactsDiv5 AV.BigInt.FactsGcd AV.BigInt.FactsMod.
+               AV.BigInt.FactsShift AV.BigInt.FactsPow AV.BigInt.FactsConv AV.BigInt.FactsDiv5 AV.BigInt.FactsGcd AV.BigInt.FactsMod AV.BigInt.FactsPowMod AV.BigInt.FactsRadix.
 Local Open Scope Z_scope.
 
 Theorem plus_exact : forall a b, norm a -> norm b ->
@@ -116,3 +116,37 @@ Theorem gcd_exact : forall a b, norm a -> norm b ->
   exists g, fiBIntGcd a b = Some g /\ val g = Z.gcd (val a) (val b) /\ norm g.
 Proof. exact FactsGcd.gcd_exact. Qed.
 Print Assumptions gcd_exact.
+
+(* fiBIntPowerMod: remainder (sign of the dividend) of the exact power.  Full statement of the property:
+     forall a b c, norm a -> norm b -> norm c -> val c <> 0 -> 0 <= val b ->
+       exists r, fiBIntPowerMod a b c = Some r /\ val r = Z.rem (val a ^ val b) (val c) /\ norm r
+   It is REFUTED at val b = 0, |val c| = 1 (the code answers 1, a^0 mod c is 0; see
+   FactsExamples.powermod_zero_exponent_unit_modulus_refuted, found on the real code by the check and keyed
+   "powmod:zero-exponent-unit-modulus").  Proved: everything else. *)
+Theorem powermod_exact_partial : forall a b c, norm a -> norm b -> norm c -> val c <> 0 -> 0 <= val b ->
+  (val b = 0 -> Z.abs (val c) <> 1) ->
+  exists r, fiBIntPowerMod a b c = Some r /\ val r = Z.rem (val a ^ val b) (val c) /\ norm r.
+Proof. exact FactsPowMod.powermod_exact. Qed.
+Print Assumptions powermod_exact_partial.
+
+(* radix input "[sign] RR r WW": RR the radix 2..36 in decimal, WW digits [0-9A-Z] of that radix;
+   rval is the value of WW in that radix *)
+Theorem radix_scan_exact : forall (sg : list Z) (neg : bool) (lead whole rest : list Z) (radix : Z),
+  sign_of sg neg -> alldig lead -> lead <> nil -> dval lead = radix -> 2 <= radix <= 36 ->
+  allr radix whole -> notalnum_head rest ->
+  let r := bintRadixScanFrString (sg ++ lead ++ (114 :: nil) ++ whole ++ rest) in
+  val (fst r) = (if neg then - rval radix whole else rval radix whole) /\ norm (fst r) /\ snd r = rest.
+Proof. exact FactsRadix.radix_scan_exact. Qed.
+Print Assumptions radix_scan_exact.
+
+Theorem radix_scan_decimal_exact : forall (sg : list Z) (neg : bool) (ds rest : list Z),
+  sign_of sg neg -> alldig ds -> ds <> nil -> notdig_head rest -> (match rest with 114 :: _ => False | _ => True end) ->
+  let r := bintRadixScanFrString (sg ++ ds ++ rest) in
+  val (fst r) = (if neg then - dval ds else dval ds) /\ norm (fst r) /\ snd r = rest.
+Proof. exact FactsRadix.radix_scan_decimal_exact. Qed.
+Print Assumptions radix_scan_decimal_exact.
+
+Theorem frplacev_exact : forall neg data, dok data ->
+  val (bintFrPlacev neg data) = (if neg then - lval data else lval data) /\ norm (bintFrPlacev neg data).
+Proof. exact FactsConv.frplacev_exact. Qed.
+Print Assumptions frplacev_exact.
